@@ -409,3 +409,134 @@ func PauseEvents(w *world.World, os string) []world.Event {
 		return nil
 	}}}
 }
+
+// Settle runs all reconciles fairly (marking every workload object ready in between) until the
+// world stops changing; it returns false if it did not quiesce within maxRounds.
+func Settle(w *world.World, maxRounds int, ready bool) bool {
+	for r := 0; r < maxRounds; r++ {
+		before := w.Canon()
+		for _, ev := range ReconcileEvents(w) {
+			ev.Apply(w)
+		}
+		if ready {
+			for _, k := range w.S.SortedKeys() {
+				if k.Group == world.TestGroup {
+					o := w.S.Objs[k]
+					if StatusClass(o.Content) != "ready" {
+						_ = w.SetStatus(k, StatusFor(o.Content, "ready"))
+					}
+				}
+			}
+		}
+		w.GC()
+		if w.Canon() == before {
+			return true
+		}
+	}
+	return false
+}
+
+// AddFinalizer adds a foreign finalizer to k.
+func AddFinalizer(w *world.World, k kmodel.Key, f string) {
+	_ = w.Edit(k, func(c map[string]any) {
+		m := c["metadata"].(map[string]any)
+		l, _ := m["finalizers"].([]any)
+		m["finalizers"] = append(l, f)
+	})
+}
+
+// HoldFinalizer is the foreign finalizer used by scenarios.
+const HoldFinalizer = "example.com/hold"
+
+// ReleaseEvents lets the finalizer holder release its finalizer on terminating objects.
+func ReleaseEvents(w *world.World) []world.Event {
+	var evs []world.Event
+	for _, k := range w.S.SortedKeys() {
+		o := w.S.Objs[k]
+		if k.Group == world.TestGroup && kmodel.Terminating(o.Content) && HasFinalizer(o.Content, HoldFinalizer) {
+			k := k
+			evs = append(evs, world.Event{Name: "release:" + k.Kind + "/" + k.Name, Apply: func(w *world.World) *world.Pass {
+				_ = w.DropFinalizer(k, HoldFinalizer)
+				return nil
+			}})
+		}
+	}
+	return evs
+}
+
+// CrashEvents offers, for every reconcile event, a variant that crashes the operator right
+// before request i of the pass (for every i), while the restart budget lasts.
+func CrashEvents(w *world.World) []world.Event {
+	if w.Budget["restart"] <= 0 {
+		return nil
+	}
+	var evs []world.Event
+	for _, k := range w.S.SortedKeys() {
+		var ctrl string
+		switch {
+		case k.Group == "package-operator.run" && k.Kind == "ObjectSet":
+			ctrl = world.CtrlObjectSet
+		case k.Group == "package-operator.run" && k.Kind == "ObjectSetPhase":
+			ctrl = world.CtrlPhase
+		default:
+			continue
+		}
+		probe := w.Clone()
+		n := len(probe.Reconcile(ctrl, NN(k.Name), nil).Reqs)
+		for i := 1; i < n; i++ {
+			i, ctrl, name := i, ctrl, k.Name
+			evs = append(evs, world.Event{Name: fmt.Sprintf("crash:%s:%s@%d", strings.ToLower(ctrl), name, i), Apply: func(w *world.World) *world.Pass {
+				w.Budget["restart"]--
+				return w.Reconcile(ctrl, NN(name), &world.Plan{FaultAt: i, Fault: world.Crash})
+			}})
+		}
+	}
+	return evs
+}
+
+// OwnerOfPhase resolves which ObjectSet (key) and phase index a delegated phase object belongs to.
+func OwnerOfPhase(s *kmodel.Store, phaseKey kmodel.Key) (kmodel.Key, int, bool) {
+	p := s.Objs[phaseKey]
+	if p == nil {
+		return kmodel.Key{}, 0, false
+	}
+	for _, c := range world.Controllers(p.Content, false) {
+		if c.Kind != "ObjectSet" {
+			continue
+		}
+		ok := world.PKOKey("ObjectSet", phaseKey.Namespace, c.Name)
+		os := s.Objs[ok]
+		if os == nil || kmodel.UID(os.Content) != c.UID {
+			continue
+		}
+		for i, sp := range SpecPhases(os.Content, ok.Namespace) {
+			if sp.Class != "" && PhaseKey(c.Name, sp.Name) == phaseKey {
+				return ok, i, true
+			}
+		}
+	}
+	return kmodel.Key{}, 0, false
+}
+
+// PhaseObjects returns the object keys of a stored ObjectSetPhase.
+func PhaseObjects(p map[string]any, ns string) []kmodel.Key {
+	v, _ := world.Nested(p, "spec", "objects")
+	l, _ := v.([]any)
+	var out []kmodel.Key
+	for _, e := range l {
+		m, _ := e.(map[string]any)
+		obj, _ := m["object"].(map[string]any)
+		out = append(out, keyOfContent(obj, ns))
+	}
+	return out
+}
+
+// AllPhaseObjectKeys returns, per phase of a stored ObjectSet, the cluster object keys (for
+// delegated phases the objects are the same list, carried by the phase object).
+func AllPhaseObjectKeys(os map[string]any, ns string) [][]kmodel.Key {
+	var out [][]kmodel.Key
+	for _, sp := range SpecPhases(os, ns) {
+		out = append(out, sp.Objects)
+	}
+	return out
+}
